@@ -1,7 +1,9 @@
 From Coq Require Import Extraction ExtrOcamlBasic QArith.
-From BCT Require Import Model.Modularity Model.ModularityProb Model.ModularityGood.
+From BCT Require Import Model.Modularity Model.ModularityProb Model.ModularityGood Model.ModularitySelect.
 Extraction Language OCaml.
 (* coqc runs with cwd = /verif/coq *)
 Extraction "../ocaml/gen/c07_model.ml" run_finetune_und run_finetune_dir run_finetune_sign run_und_sign run_given
   run_louvain_und run_louvain_dir run_louvain_sign run_community_louvain run_retained ls2ci
-  run_probtune run_louvain_und_good run_louvain_sign_good run_community_louvain_good sym_rowsb pos_totalb Qred Z.add.
+  run_probtune run_louvain_und_good run_louvain_sign_good run_community_louvain_good sym_rowsb pos_totalb
+  auto_louvain_und auto_louvain_sign auto_community_louvain auto_finetune_und auto_finetune_dir auto_finetune_sign
+  run_louvain_und_hier run_spectral_table Qred Z.add.
